@@ -113,6 +113,7 @@ type v06ConnPlan struct {
 type v06Plan struct {
 	fastOpen bool
 	logger   bool
+	eventLogger bool // an EventLogger is configured (no yields here; see TestVerifC06_TeardownWindow)
 	nUsers   int
 	nSegs    int
 	conns    []v06ConnPlan
@@ -125,6 +126,7 @@ type v06Plan struct {
 
 func (p *v06Plan) String() string {
 	var sb strings.Builder
+	fmt.Fprintf(&sb, "eventLogger=%v ", p.eventLogger)
 	fmt.Fprintf(&sb, "fastOpen=%v logger=%v users=%d segments=%d randseed=%d", p.fastOpen, p.logger, p.nUsers, p.nSegs, p.randSeed)
 	if p.vetoUser >= 0 {
 		fmt.Fprintf(&sb, " veto{user-%d at LogTraffic call %d sticky=%v topUpTx=%v}", p.vetoUser, p.vetoAt, p.sticky, p.topUpTx)
@@ -207,7 +209,7 @@ func (p *v06Plan) nontrivial() bool {
 }
 
 func (p *v06Plan) classes() []string {
-	cl := []string{fmt.Sprintf("fastopen:%v", p.fastOpen), fmt.Sprintf("logger:%v", p.logger),
+	cl := []string{fmt.Sprintf("fastopen:%v", p.fastOpen), fmt.Sprintf("logger:%v", p.logger), fmt.Sprintf("eventlogger:%v", p.eventLogger),
 		fmt.Sprintf("users:%d", p.nUsers), fmt.Sprintf("conns:%d", len(p.conns)), fmt.Sprintf("segments:%d", p.nSegs)}
 	if p.vetoUser >= 0 {
 		cl = append(cl, "scenario:veto", fmt.Sprintf("veto-sticky:%v", p.sticky))
@@ -277,6 +279,7 @@ func v06GenPlan(rt *rapid.T) *v06Plan {
 	p.randSeed = rapid.Int64().Draw(rt, "randSeed")
 	p.fastOpen = rapid.Bool().Draw(rt, "fastOpen")
 	p.logger = rapid.IntRange(0, 3).Draw(rt, "logger") != 1
+	p.eventLogger = rapid.Bool().Draw(rt, "eventLogger")
 	p.nUsers = rapid.IntRange(1, 2).Draw(rt, "users")
 	nConns := rapid.IntRange(1, 3).Draw(rt, "conns")
 	p.nSegs = rapid.IntRange(1, 3).Draw(rt, "segments")
@@ -839,7 +842,7 @@ func (r *v06Run) afterVeto(u *v06User) {
 func v06RunPlan(p *v06Plan, st *vStats) string {
 	rand.Seed(p.randSeed)
 	w := v06NewWorld()
-	w.hasLogger, w.fastOpen = p.logger, p.fastOpen
+	w.hasLogger, w.fastOpen, w.hasEL = p.logger, p.fastOpen, p.eventLogger
 	for i := 0; i < p.nUsers; i++ {
 		if i == p.vetoUser {
 			w.addUser(p.vetoAt, p.sticky)
